@@ -342,6 +342,89 @@ theorem output_found (d : Delims) (hT : d.tagS = ['{', '%']) (hS : d.stmtS = ['{
     simp [openerAt?, stripPrefix?, hT, hS, hopt, Piece.openHyphen]
 
 
+/-! ## markup pieces: the shorthand comment -/
+
+theorem shortCloseAt_none (cmtE t : Str)
+    (h : (startsWith cmtE t || startsWith ('-' :: cmtE) t) = false) : shortCloseAt? cmtE t = none := by
+  simp only [Bool.or_eq_false_iff] at h
+  obtain ⟨ha, hb⟩ := h
+  cases t with
+  | nil => simp [shortCloseAt?, stripPrefix_none_of_startsWith _ _ ha]
+  | cons c u =>
+    by_cases hc : c = '-'
+    · subst hc
+      have hb' : startsWith cmtE u = false := by simpa [startsWith] using hb
+      simp [shortCloseAt?, stripPrefix_none_of_startsWith _ _ hb', stripPrefix_none_of_startsWith _ _ ha]
+    · unfold shortCloseAt?
+      split
+      · next heq => cases heq; exact absurd rfl hc
+      · simp [stripPrefix_none_of_startsWith _ _ ha]
+
+theorem shortCloseAt_tail (cmtE rest : Str) (r : Bool) (hp : plainDelim cmtE = true) :
+    shortCloseAt? cmtE (hy r ++ cmtE ++ rest) = some (r, (if r then 1 else 0) + cmtE.length) := by
+  cases r with
+  | true => simp [hy, shortCloseAt?, stripPrefix_append]
+  | false =>
+    obtain ⟨_, h2⟩ := headIs_plain hp rest
+    cases hc : cmtE with
+    | nil => simp [hc, plainDelim] at hp
+    | cons c cs =>
+      rw [hc] at h2
+      have hne : c ≠ '-' := by simpa [headIs] using h2
+      have := stripPrefix_append (c :: cs) rest
+      unfold shortCloseAt?
+      simp only [hy, Bool.false_eq_true, if_false, List.nil_append, List.cons_append]
+      split
+      · next heq => cases heq; exact absurd rfl hne
+      · simp only [List.cons_append] at this; simp [this]
+
+
+/-- the conditions of `Piece.wf` on a shorthand comment -/
+structure ShortWf (d : Delims) (l r : Bool) (body rest : Str) : Prop where
+  lead : l = true ∨ (headIs (· == '-') body = false ∧ (body ≠ [] ∨ r = false))
+  close : allSuffixes (fun t => !(startsWith d.cmtE t || startsWith ('-' :: d.cmtE) t)) (hy l ++ body)
+            (hy r ++ d.cmtE ++ rest) = true
+
+theorem short_found (d : Delims) (hT : d.tagS = ['{', '%']) (hS : d.stmtS = ['{', '{'])
+    (hCs : d.cmtS = ['{', '#']) (hCe : plainDelim d.cmtE = true)
+    (l r : Bool) (body rest : Str) (hw : ShortWf d l r body rest) :
+    MarkupFound d (.short l r body) rest := by
+  obtain ⟨_, hp2⟩ := headIs_plain hCe rest
+  have hY : l = true ∨ headIs (· == '-') (body ++ (hy r ++ (d.cmtE ++ rest))) = false := by
+    rcases hw.lead with h | ⟨h1, h2⟩
+    · exact Or.inl h
+    · right
+      cases body with
+      | cons c cs => simpa [headIs] using h1
+      | nil =>
+        have hr : r = false := by rcases h2 with h | h; exact absurd rfl h; exact h
+        subst hr; simpa [hy] using hp2
+  have hsrc : (Piece.short l r body).src d ++ rest = '{' :: '#' :: (hy l ++ (body ++ (hy r ++ (d.cmtE ++ rest)))) := by
+    simp [Piece.src, hCs, List.append_assoc]
+  have hopt := optHyphen_hy l _ hY
+  have hfind := findFirst_exact (shortCloseAt? d.cmtE)
+    (fun t => startsWith d.cmtE t || startsWith ('-' :: d.cmtE) t) (shortCloseAt_none d.cmtE) (hy l ++ body)
+    (hy r ++ d.cmtE ++ rest) _ hw.close (shortCloseAt_tail d.cmtE rest r hCe)
+  simp only [List.append_assoc] at hfind
+  refine ⟨by simp [Piece.src, hCs], ?_, ?_⟩
+  · intro pos la
+    refine ⟨'{', _, hsrc, ?_⟩
+    have hlenr : (hy r).length = if r = true then 1 else 0 := by cases r <;> rfl
+    have htake : List.take ((Piece.short l r body).src d).length ((Piece.short l r body).src d ++ rest)
+        = (Piece.short l r body).src d := by simp
+    rw [hsrc] at htake
+    have hn : 2 + ((hy l).length + body.length) + ((if r = true then 1 else 0) + d.cmtE.length)
+        = ((Piece.short l r body).src d).length := by
+      simp only [Piece.src, hCs, List.length_append, List.length_cons, List.length_nil, hlenr]; omega
+    have htk : List.take ((hy l).length + body.length) (hy l ++ (body ++ (hy r ++ (d.cmtE ++ rest)))) = hy l ++ body := by
+      have h1 : hy l ++ (body ++ (hy r ++ (d.cmtE ++ rest))) = (hy l ++ body) ++ (hy r ++ (d.cmtE ++ rest)) := by
+        simp [List.append_assoc]
+      rw [h1]; exact List.take_left' (by simp)
+    simp [matchAt, blockAt?, kwTagAt?, stripPrefix?, hT, hS, hCs, hfind, pieceMatch, htk]
+    exact ⟨hn, by rw [hn]; exact htake⟩
+  · rw [hsrc]
+    simp [openerAt?, stripPrefix?, hT, hS, hCs, hopt, Piece.openHyphen]
+
 theorem outputWf_of_wf (d : Delims) (l r : Bool) (ws1 e ws2 next : Str)
     (h : (Piece.output l r ws1 e ws2).wf d next = true) : OutputWf d l r ws1 e ws2 next := by
   simp only [Piece.wf, Bool.and_eq_true, Bool.or_eq_true, Bool.not_eq_true', decide_eq_true_eq] at h
@@ -373,6 +456,47 @@ theorem allMarkupFound_text_output (d : Delims) (hT : d.tagS = ['{', '%']) (hS :
     | output l r ws1 e ws2 => exact output_found d hT hS hE hC l r ws1 e ws2 _ (outputWf_of_wf d l r ws1 e ws2 _ hwf.1.1)
     | text s => simp [Piece.isText] at ht
     | _ => simp [Piece.isText, Piece.isOutput] at hall
+
+theorem shortWf_of_wf (d : Delims) (l r : Bool) (body next : Str)
+    (h : (Piece.short l r body).wf d next = true) : d.cmtS ≠ [] ∧ ShortWf d l r body next := by
+  simp only [Piece.wf, Bool.and_eq_true, Bool.or_eq_true, Bool.not_eq_true', decide_eq_true_eq] at h
+  obtain ⟨⟨h1, h2⟩, h3⟩ := h
+  refine ⟨h1, ?_, h3⟩
+  rcases h2 with h2 | ⟨h2a, h2b⟩
+  · exact Or.inl h2
+  · refine Or.inr ⟨h2a, ?_⟩
+    rcases h2b with h | h
+    · exact Or.inl h
+    · exact Or.inr h
+
+def Piece.isShort : Piece → Bool
+  | .short _ _ _ => true
+  | _ => false
+
+/-- the same for templates of text, output statements and shorthand comments -/
+theorem allMarkupFound_text_output_short (d : Delims) (hT : d.tagS = ['{', '%']) (hS : d.stmtS = ['{', '{'])
+    (hE : plainDelim d.stmtE = true) (hC : d.cmtS = [] ∨ (d.cmtS = ['{', '#'] ∧ plainDelim d.cmtE = true)) :
+    ∀ (ps : List Piece), ps.all (fun p => p.isText || p.isOutput || p.isShort) = true → srcWf d ps = true →
+      AllMarkupFound d ps
+  | [], _, _ => trivial
+  | p :: rest, hall, hwf => by
+    simp only [List.all_cons, Bool.and_eq_true] at hall
+    simp only [srcWf, Bool.and_eq_true] at hwf
+    refine ⟨fun ht => ?_, allMarkupFound_text_output_short d hT hS hE hC rest hall.2 hwf.2⟩
+    have hC' : d.cmtS = [] ∨ d.cmtS = ['{', '#'] := by
+      rcases hC with h | h
+      · exact Or.inl h
+      · exact Or.inr h.1
+    cases p with
+    | output l r ws1 e ws2 =>
+      exact output_found d hT hS hE hC' l r ws1 e ws2 _ (outputWf_of_wf d l r ws1 e ws2 _ hwf.1.1)
+    | short l r body =>
+      obtain ⟨hne, hw⟩ := shortWf_of_wf d l r body _ hwf.1.1
+      rcases hC with h | h
+      · exact absurd h hne
+      · exact short_found d hT hS h.1 h.2 l r body _ hw
+    | text s => simp [Piece.isText] at ht
+    | _ => simp [Piece.isText, Piece.isOutput, Piece.isShort] at hall
 
 /-- lex and parse a template given as a STRING: scanner, tokenizer, parser -/
 def nodesOfString (d : Delims) (src : Str) : Except LexError (List Node) :=
